@@ -33,9 +33,10 @@ theorem C02_deb_lex_bound (s : Str) : (lex s).length ≤ s.length := by
   have := length_le_of_nonempty (lex s) h.2
   rw [h.1] at this; exact this
 
-/-- lossless deb822 reader: the tree holds exactly the tokens, so every parser loop — each of
-    which consumes at least one token per iteration (the termination proofs in Model/DebParse) —
-    runs at most |s| times in total -/
+/-- lossless deb822 reader: the tree holds exactly the tokens, at most one per character.  This bounds
+    the SIZE of the result, not the work (it would hold of a parser that rescans its input): the
+    work bound — rounds of every loop, counted by an instrumented twin — is
+    `Props.C02Work.C02_deb_parse_work` -/
 theorem C02_deb_parse_bound (s : Str) : (parse s).tree.leaves.length ≤ s.length := by
   rw [C01.C01_tokens_once]; exact C02_deb_lex_bound s
 
@@ -189,7 +190,8 @@ theorem C02_deb_lossy_para_no_panic (s : Str) : Lossy.readPara s ≠ .error .Unr
   all_goals simp
 
 /-- relationship fields: at most one token per character, and the parser's root loop consumes
-    every token (the same holds for `allow_substvar` true and false) -/
+    every token (the same holds for `allow_substvar` true and false).  `C02_rel_parse_bound` below
+    bounds the SIZE of the result; the work bound is `Props.C02Work.C02_rel_parse_work` -/
 theorem C02_rel_lex_bound (s : Str) : (Rel.lex s).length ≤ s.length := by
   have h := C09.C09_lex_partition s
   have := length_le_of_nonempty (Rel.lex s) h.2
